@@ -160,7 +160,7 @@ def _first_div_seq(v):
     return None
 
 
-def classify(rule, detail, plan):
+def classify(rule, detail, plan, fail_elems=None):
     import re
     m = re.search(r"enabled=(\[.*\])$", detail)
     if not rule.startswith("C01.") or "[" in rule:
@@ -181,12 +181,12 @@ def classify(rule, detail, plan):
     if res.failed_hard():
         return None
     root = gen.from_xml(plan["charts"]["main"])
-    base = _first_div_seq(refine.refine(root, plan, res)[0])
+    base = _first_div_seq(refine.refine(root, plan, res, fail_elems=fail_elems)[0])
     if base is None:
         return None
     for (variant, fid) in VARIANTS:
         root = gen.from_xml(plan["charts"]["main"])
-        s = _first_div_seq(refine.refine(root, plan, res, variant=(variant,))[0])
+        s = _first_div_seq(refine.refine(root, plan, res, variant=(variant,), fail_elems=fail_elems)[0])
         if s is None or s > base:
             return fid
     return None
